@@ -1047,6 +1047,9 @@ fn main() {
     if args[1] == "fresh-op" {
         std::process::exit(builder::fresh_op_child(&args[2]));
     }
+    if args[1] == "decode-frame" {
+        std::process::exit(judge::decode_child(&args[2]));
+    }
     if args[1] == "judge-history" {
         std::process::exit(builder::history_child());
     }
